@@ -591,6 +591,21 @@ pub fn c11(r: &mut Rng, sz: &Sizes, out: &mut Vec<String>) {
         c.insert(k.to_string(), JsonShape::Number { optional: false });
         p.push(JsonShape::Object { content: c, optional: false });
     }
+    // a shape and its optional twin side by side as variants of one OneOf (only the flag tells them apart:
+    // a set order that forgets a flag merges them), alone, beside a third variant, and one level down
+    let twins: Vec<JsonShape> = small_shapes().into_iter().chain(medium_shapes()).filter(|s| !s.is_optional() && !matches!(s, JsonShape::Null)).collect();
+    for s in &twins {
+        let o = json_shape::verif::as_optional(s.clone());
+        for f in [false, true] {
+            p.push(one_of(vec![s.clone(), o.clone()], f));
+            p.push(one_of(vec![o.clone(), JsonShape::Null, s.clone()], f));
+        }
+        p.push(arr(one_of(vec![s.clone(), o.clone()], false), false));
+        p.push(tup(vec![one_of(vec![o.clone(), s.clone()], false), s.clone()], true));
+        out.push(format!("cmp\t{}\t{}", sx(s), sx(&o)));
+        out.push(format!("cmp\t{}\t{}", sx(&o), sx(s)));
+        out.push(format!("cmp\t{}\t{}", sx(&arr(s.clone(), false)), sx(&arr(o.clone(), false))));
+    }
     for s in &p {
         out.push(format!("display\t{}", sx(s)));
         out.push(format!("serde\t{}", sx(s)));
@@ -620,6 +635,32 @@ pub fn c12(r: &mut Rng, sz: &Sizes, out: &mut Vec<String>) {
                 for (a, b) in [(&s, &s), (&s, &o), (&s, &t), (&t, &s)] {
                     out.push(format!("ticks_subset\t{}\t{}", sx(a), sx(b)));
                     out.push(format!("ticks_merger\t{}\t{}", sx(a), sx(b)));
+                }
+            }
+        }
+    }
+    // every container kind on the left against every kind on the right, the right (and then the left) wrapped in a
+    // OneOf at every level, leaves that fit and leaves that do not: a retried variant costs a factor per level
+    // only where a nested comparison fails late
+    for cl in 0..3 {
+        for cr in 0..3 {
+            for (ol, or) in [(false, false), (true, true), (false, true)] {
+                for wrap in 0..3 {
+                    for fit in [true, false] {
+                        for depth in [4usize, 8, 12, 16, 20] {
+                            let leaf_l = JsonShape::Bool { optional: false };
+                            let leaf_r = if fit { JsonShape::Bool { optional: false } } else { JsonShape::Number { optional: false } };
+                            let a = chain_wrapped(cl, ol, depth, leaf_l.clone(), 0);
+                            let b = chain_wrapped(cr, or, depth, leaf_r.clone(), wrap);
+                            out.push(format!("ticks_subset\t{}\t{}", sx(&a), sx(&b)));
+                            out.push(format!("ticks_merger\t{}\t{}", sx(&b), sx(&a)));
+                            if wrap > 0 {
+                                let a2 = chain_wrapped(cl, ol, depth, leaf_l, wrap);
+                                out.push(format!("ticks_subset\t{}\t{}", sx(&a2), sx(&b)));
+                                out.push(format!("ticks_merger\t{}\t{}", sx(&a2), sx(&b)));
+                            }
+                        }
+                    }
                 }
             }
         }
@@ -1256,6 +1297,16 @@ fn source_sets(r: &mut Rng, n: usize) -> Vec<Vec<String>> {
                 out.push(vec![w("null"), w(v1), w(v2)]);
                 out.push(vec![w(v1), w(v2), w("null")]);
             }
+        }
+    }
+    // an array whose element type became optional, then a tuple at the same place: the merge puts the optional
+    // element type, flag and all, among the variants of a OneOf — the only way to an optional variant
+    for x in ["{\"id\":1}", "[1]", "\"s\"", "[1,\"x\"]", "{\"o\":{\"k\":true}}", "[{\"k\":1}]", "true"] {
+        for c in ["@", "{\"v\":@}", "[@,7]"] {
+            let w = |v: &str| c.replace('@', v);
+            out.push(vec![w(&format!("[{x}]")), w("[null]"), w("[1,\"x\"]")]);
+            out.push(vec![w(&format!("[{x},null]")), w("[true,\"x\",2]")]);
+            out.push(vec![w("[1,\"x\"]"), w(&format!("[{x}]")), w("[null]")]);
         }
     }
     // member names of every awkward category: non-ASCII letters (legal identifiers), keywords and reserved
